@@ -28,14 +28,15 @@ def judge(ops, cb):
             if res.startswith("= ok"): handles[a[1]] = int(a[5])
         if a[0] == "write" and res.startswith("= n=") and handles.get(a[1], 0) & 2 == 0 and not res.startswith("= n=0"): bad.append(f"'{o}' stored bytes through a read-only handle")
         if a[0] == "trunc" and "rc=0" in res and ro: bad.append(f"'{o}' succeeded")
+        if a[0] in ("mkflop", "mkhdf") and devro and "rc=0" in res: bad.append(f"'{o}' (format) reports success on a device opened read-only")
     if ops[-1].startswith("imghash") and h0 and ro and cb[-1][0] != h0:
         bad.append(f"image changed while read-only: {h0} -> {cb[-1][0]}")
     return bad
 
 def run(res):
     res.cov["rule"] = ("seeded `ro` sequences: a populated volume (all 8 flavour bytes; DD, HD, 4001-block hardfile) reopened with device RO / volume RO / both, "
-                       "then a shuffled list of every mutating call (mkdir, remove, rename, move, comment, access, open for write/rw/create, write, truncate, flush, boot-block install); distinct by (flavour, kind, ro combination, order)")
-    res.assumptions += ["format / RDB header writes on a read-only device are covered by the theorem (devWrite primitive) and by the rdb profile of C13, not by this profile"]
+                       "then a shuffled list of every mutating call (mkdir, remove, rename, move, comment, access, open for write/rw/create, write, truncate, flush, boot-block install, and — on a device opened read-only — a format); distinct by (flavour, kind, ro combination, order)")
+    res.assumptions += ["RDB header writes (adfCreateHd) on a read-only device are covered by the theorem (devWrite primitive), not by this profile; formatting as floppy / hardfile is attempted on devices opened read-only"]
     ok, why = vlib.proof_side(res, PID)
     exe = vlib.build_harness("asan")
     n = 60 if res.tier == "quick" else 1200
@@ -48,6 +49,9 @@ def run(res):
             io = max(i for i, o in enumerate(ops) if o.startswith("opendev"))
             res.note_case((ops[2], ops[io], ops[io+1], tuple(o.split()[0] for o in ops[io+2:io+8])), None)
             if san or crash or fault or tie: ties.append((ops, tie, san or crash or fault))
+            if san or crash:
+                # a refused call must report failure, not bring the process down
+                bad.append((ops, f"'{ops[min(len(cb), len(ops)) - 1]}' on a read-only device/volume did not return: {san or crash}"))
             if not crash:
                 for m in judge(ops, cb): bad.append((ops, m))
     res.cov["samples"] = [sp[0][-30:-20], sp[-1][-30:-20]]
